@@ -346,7 +346,14 @@ def rand_cfg(rnd, focus="all"):
         if c["selects"] and rnd.random() < 0.15:
             # (a name that is given to two selections is not referred to: which of the two /name/ means is not documented)
             # (nor is the whole record a sort key: the mutual order of different objects is not documented either)
-            once = [x for x in c["selects"] if sum(1 for y in c["selects"] if y["name"] == x["name"]) == 1 and x["e"] != SELF]
+            def whole(x, depth=0):
+                # the selection is the whole record, directly or through the name of another selection
+                if x["e"] == SELF:
+                    return True
+                if x["e"].get("op") == "sel" and depth < 4:
+                    return any(whole(y, depth + 1) for y in c["selects"] if y["name"] == x["e"]["name"] and y is not x)
+                return False
+            once = [x for x in c["selects"] if sum(1 for y in c["selects"] if y["name"] == x["name"]) == 1 and not whole(x)]
             if once:
                 c["sorts"][0] = {"e": {"op": "sel", "name": rnd.choice(once)["name"]}, "desc": rnd.random() < 0.5}
     if focus in ("all", "limit", "group", "stop") and rnd.random() < (0.5 if focus == "all" else 0.9):
